@@ -1,6 +1,8 @@
 package main
 
 import (
+	"bytes"
+	"encoding/gob"
 	"encoding/json"
 	"fmt"
 	"os"
@@ -466,7 +468,8 @@ func freshProcessResult(cs *Case) Result {
 		fmt.Fprintln(os.Stderr, "worker: fresh process failed", fails, "time(s) and then succeeded: machine trouble (fork/memory), not a finding")
 		os.Exit(97)
 	}
-	if json.Unmarshal(out, &r) != nil {
+	// gob, not JSON: messages and quotes may hold bytes that are not UTF-8, which JSON would replace
+	if gob.NewDecoder(bytes.NewReader(out)).Decode(&r) != nil {
 		fmt.Fprintln(os.Stderr, "worker: unparsable oneshot output")
 		os.Exit(97)
 	}
@@ -478,8 +481,7 @@ func cmdOneshot() {
 	dec := json.NewDecoder(os.Stdin)
 	must(dec.Decode(&cs))
 	r, _, _ := execute(&cs.Project, cs.Opts, cs.Env, nil, cs.Seed, nil)
-	b, _ := json.Marshal(r)
-	fmt.Println(string(b))
+	must(gob.NewEncoder(os.Stdout).Encode(r))
 }
 
 // pack stores one differing environment in a violation so that the minimiser
